@@ -19,7 +19,8 @@ CONFIGS = {
     # default features + whatsapp_v1: both hashing configurations compiled
     'D': {'args': ['-p', 'akd', '--features', 'whatsapp_v1'], 'crates': ['akd', 'akd_core']},
     # the other body of every cfg twin: sequential VRF, no preload features
-    'W': {'args': ['-p', 'akd', '--no-default-features', '--features', 'whatsapp_v1,public_auditing'],
+    # (both hashing configurations stay compiled so that every "both configurations" rule is evaluated here too)
+    'W': {'args': ['-p', 'akd', '--no-default-features', '--features', 'whatsapp_v1,experimental,public_auditing'],
           'crates': ['akd', 'akd_core']},
     # metrics / tracing / serde / public_tests bodies
     'A': {'args': ['-p', 'akd', '--features',
@@ -115,7 +116,17 @@ def facts_for(config, repo='/repo', target_dir=None, log=None):
             'CARGO_NET_OFFLINE': 'true',
         })
         cmd = ['cargo', '+nightly', 'check', '--offline'] + cfg['args']
-        p = subprocess.run(cmd, cwd=repo, env=env, stdout=subprocess.PIPE, stderr=subprocess.STDOUT, text=True)
+        # one cargo at a time per target directory (concurrent self-test / seed-triage runs share worker directories)
+        tlock = open(os.path.join(tdir, '.verif-lock'), 'w')
+        fcntl.flock(tlock, fcntl.LOCK_EX)
+        try:
+            for pat in ('akd-*', 'akd_core-*', 'examples-*'):
+                for q in glob.glob(os.path.join(tdir, 'debug', '.fingerprint', pat)):
+                    shutil.rmtree(q, ignore_errors=True)
+            p = subprocess.run(cmd, cwd=repo, env=env, stdout=subprocess.PIPE, stderr=subprocess.STDOUT, text=True)
+        finally:
+            fcntl.flock(tlock, fcntl.LOCK_UN)
+            tlock.close()
         if log:
             with open(log, 'w') as fh:
                 fh.write(p.stdout)
